@@ -61,6 +61,21 @@ fn verif_enum_shwap_types() {
                 let ok = accepts(move || r2.verify(id, &d2).is_ok());
                 if ok != (rr == r) && !(ok && eds.row(rr).unwrap() == eds.row(r).unwrap()) { println!("WITNESS C05: row {r} verified as row {rr}: {ok} (width {width})"); panic!("witness"); }
             }
+            // forged rows: a surplus share (in and out of namespace order), a dropped share, two shares swapped, a share of
+            // another row in place of one of its own - none may verify as row r
+            let id_r = RowId::new(r, 3).unwrap();
+            let mut forged: Vec<(&str, Vec<crate::Share>)> = Vec::new();
+            { let mut v = row.shares.clone(); v.insert(usize::from(w) - 1, row.shares[0].clone()); forged.push(("a data share inserted among the parity shares", v)); }
+            { let mut v = row.shares.clone(); v.push(row.shares[usize::from(w) - 1].clone()); forged.push(("the last share repeated", v)); }
+            { let mut v = row.shares.clone(); v.insert(1, row.shares[0].clone()); forged.push(("the first share repeated", v)); }
+            { let mut v = row.shares.clone(); v.pop(); forged.push(("the last share dropped", v)); }
+            if row.shares[0] != row.shares[1] { let mut v = row.shares.clone(); v.swap(0, 1); forged.push(("the first two shares swapped", v)); }
+            { let other = Row::new((r + 1) % w, &eds).unwrap(); if other.shares[0] != row.shares[0] { let mut v = row.shares.clone(); v[0] = other.shares[0].clone(); forged.push(("the first share taken from another row", v)); } }
+            for (what, shares) in forged {
+                cases += 1;
+                let (f, d2) = (Row { shares }, dah.clone());
+                if accepts(move || f.verify(id_r, &d2).is_ok()) { println!("WITNESS C05: row {r} with {what} verifies as row {r} (width {width})"); panic!("witness"); }
+            }
             // a row with one share altered or two shares swapped is rejected
             let mut b = BytesMut::new(); row.encode(&mut b);
             let id = RowId::new(r, 3).unwrap();
